@@ -25,7 +25,28 @@ Section Only.
   Variable P : ev -> bool.
   Hypothesis P_lock : forall i, P (ELock i) = true.
   Hypothesis P_unlock : forall i, P (EUnlock i) = true.
-  Hypothesis P_db : forall op args, P (EDb op args) = true.
+  (* which Database operations the predicate admits: one hypothesis per operation, so that every lemma lists exactly the operations its function can issue *)
+  Variable dbok : string -> bool.
+  Hypothesis P_db : forall op args, dbok op = true -> P (EDb op args) = true.
+  Hypothesis ok_ActorForInbox : dbok "ActorForInbox" = true.
+  Hypothesis ok_ActorForOutbox : dbok "ActorForOutbox" = true.
+  Hypothesis ok_Create : dbok "Create" = true.
+  Hypothesis ok_Delete : dbok "Delete" = true.
+  Hypothesis ok_Exists : dbok "Exists" = true.
+  Hypothesis ok_Followers : dbok "Followers" = true.
+  Hypothesis ok_Following : dbok "Following" = true.
+  Hypothesis ok_Get : dbok "Get" = true.
+  Hypothesis ok_GetInbox : dbok "GetInbox" = true.
+  Hypothesis ok_GetOutbox : dbok "GetOutbox" = true.
+  Hypothesis ok_InboxContains : dbok "InboxContains" = true.
+  Hypothesis ok_InboxForActor : dbok "InboxForActor" = true.
+  Hypothesis ok_Liked : dbok "Liked" = true.
+  Hypothesis ok_NewID : dbok "NewID" = true.
+  Hypothesis ok_OutboxForInbox : dbok "OutboxForInbox" = true.
+  Hypothesis ok_Owns : dbok "Owns" = true.
+  Hypothesis ok_SetInbox : dbok "SetInbox" = true.
+  Hypothesis ok_SetOutbox : dbok "SetOutbox" = true.
+  Hypothesis ok_Update : dbok "Update" = true.
   Hypothesis P_newtransport : forall b, P (ENewTransport b) = true.
   Hypothesis P_deref : forall i, P (EDeref i) = true.
   Hypothesis P_now : P ENow = true.
@@ -91,14 +112,15 @@ Ltac qu f := unfold f; q.
 (* ---- Calls ---- *)
 Lemma q_lock i : quiet_prog (lock i). Proof. unfold lock, call; q. Qed.
 Lemma q_unlock i : quiet_prog (unlock i). Proof. unfold unlock, call; q. Qed.
-Lemma q_db op args : quiet_prog (db op args). Proof. unfold db, call; q. Qed.
+Lemma q_db op args : dbok op = true -> quiet_prog (db op args). Proof. intros Hop. unfold db, call. split; [apply P_db; exact Hop|intros; exact I]. Qed.
+Local Hint Extern 1 (dbok _ = true) => assumption : quiet.
 Local Hint Resolve q_lock q_unlock q_db : quiet.
-Lemma q_db_unit op args : quiet_prog (db_unit op args). Proof. qu db_unit. Qed.
-Lemma q_db_bool op args : quiet_prog (db_bool op args). Proof. qu db_bool. Qed.
-Lemma q_db_iri op args : quiet_prog (db_iri op args). Proof. qu db_iri. Qed.
-Lemma q_db_opt_iri op args : quiet_prog (db_opt_iri op args). Proof. qu db_opt_iri. Qed.
-Lemma q_db_json op args : quiet_prog (db_json op args). Proof. qu db_json. Qed.
-Lemma q_db_opt_json op args : quiet_prog (db_opt_json op args). Proof. qu db_opt_json. Qed.
+Lemma q_db_unit op args : dbok op = true -> quiet_prog (db_unit op args). Proof. intros Hop. qu db_unit. Qed.
+Lemma q_db_bool op args : dbok op = true -> quiet_prog (db_bool op args). Proof. intros Hop. qu db_bool. Qed.
+Lemma q_db_iri op args : dbok op = true -> quiet_prog (db_iri op args). Proof. intros Hop. qu db_iri. Qed.
+Lemma q_db_opt_iri op args : dbok op = true -> quiet_prog (db_opt_iri op args). Proof. intros Hop. qu db_opt_iri. Qed.
+Lemma q_db_json op args : dbok op = true -> quiet_prog (db_json op args). Proof. intros Hop. qu db_json. Qed.
+Lemma q_db_opt_json op args : dbok op = true -> quiet_prog (db_opt_json op args). Proof. intros Hop. qu db_opt_json. Qed.
 Lemma q_new_transport b : quiet_prog (new_transport b). Proof. unfold new_transport, call; q. Qed.
 Lemma q_dereference i : quiet_prog (dereference i). Proof. unfold dereference, call; q. Qed.
 Lemma q_batch p r : quiet_prog (batch_deliver p r). Proof. unfold batch_deliver, call; q. Qed.
@@ -244,6 +266,8 @@ Lemma q_soc_like cfg outbox a : quiet_prog (Soc.like cfg outbox a). Proof. qu So
 Lemma q_soc_undo cfg outbox a : quiet_prog (Soc.undo cfg outbox a). Proof. qu Soc.undo. Qed.
 Lemma q_soc_block cfg a : quiet_prog (Soc.block cfg a). Proof. qu Soc.block. Qed.
 Local Hint Resolve q_soc_create q_soc_update q_soc_delete q_soc_follow q_soc_add q_soc_remove q_soc_like q_soc_undo q_soc_block : quiet.
+Lemma q_soc_callbacks cfg outbox raw perm a : quiet_prog (soc_callbacks cfg outbox raw perm a). Proof. qu soc_callbacks. Qed.
+Local Hint Resolve q_soc_callbacks : quiet.
 Lemma q_post_outbox cfg outbox raw perm a : quiet_prog (post_outbox cfg outbox raw perm a). Proof. qu post_outbox. Qed.
 Local Hint Resolve q_post_inbox q_post_outbox : quiet.
 
